@@ -262,27 +262,33 @@ func TestVX_C01(t *testing.T) {
 			if !vx.MineIdx(n) {
 				continue
 			}
-			r.Eval(1)
-			px, py := sm2ref.Pub(d)
-			cs := c01case{Entry: "hashed-stream", Shape: "reject:" + rc.name, D: vx.Hex(b32(d)), E: vx.Hex(b32(rc.e)), K: vx.Hex(b32(rc.first)) + vx.Hex(b32(k2))}
-			var rr, ss []byte
-			var err error
-			var ok bool
-			kind, msg := vx.Try(func() {
-				rr, ss, err = sm2.SignHashed(stream(b32(rc.first), b32(k2), b32(big.NewInt(99))), b32(d), b32(rc.e))
-				if err == nil {
-					ok, _ = sm2.VerifyHashed(px, py, b32(rc.e), rr, ss)
+			// the key as 32 bytes, and keys handed over in 31 bytes and in 1 byte (the rejections by r = 0 and r + k = n do not
+			// depend on the key): whatever a signer does when it abandons a candidate, the next one is signed with the same key
+			short31 := vx.Fill("c01stream-d31", 31)
+			short31[0] |= 1
+			for ei, dEnc := range [][]byte{b32(d), short31, {0x07}} {
+				r.Eval(1)
+				px, py := sm2ref.Pub(bi(dEnc))
+				cs := c01case{Entry: "hashed-stream", Shape: fmt.Sprintf("reject:%s:keylen%d", rc.name, len(dEnc)), D: vx.Hex(dEnc), E: vx.Hex(b32(rc.e)), K: vx.Hex(b32(rc.first)) + vx.Hex(b32(k2))}
+				var rr, ss []byte
+				var err error
+				var ok bool
+				kind, msg := vx.Try(func() {
+					rr, ss, err = sm2.SignHashed(stream(b32(rc.first), b32(k2), b32(big.NewInt(99))), dEnc, b32(rc.e))
+					if err == nil {
+						ok, _ = sm2.VerifyHashed(px, py, b32(rc.e), rr, ss)
+					}
+				})
+				if kind != "" {
+					r.Violation("c01:stream-panic:"+rc.name, msg, cs)
+				} else if err != nil {
+					r.Violation("c01:stream-sign-error:"+rc.name, fmt.Sprintf("signing failed although the stream holds an acceptable nonce after the rejected %s candidate: %v", rc.name, err), cs)
+				} else if !ok {
+					r.Violation("c01:stream-verify-reject:"+rc.name, fmt.Sprintf("first candidate is a %s case (key handed over in %d bytes); the signature the signer returned (r=%x s=%x) is rejected by the verifier", rc.name, len(dEnc), rr, ss), cs)
 				}
-			})
-			if kind != "" {
-				r.Violation("c01:stream-panic:"+rc.name, msg, cs)
-			} else if err != nil {
-				r.Violation("c01:stream-sign-error:"+rc.name, fmt.Sprintf("signing failed although the stream holds an acceptable nonce after the rejected %s candidate: %v", rc.name, err), cs)
-			} else if !ok {
-				r.Violation("c01:stream-verify-reject:"+rc.name, fmt.Sprintf("first candidate is a %s case; the signature the signer returned (r=%x s=%x) is rejected by the verifier", rc.name, rr, ss), cs)
+				r.Shape(fmt.Sprintf("stream:%s:%d", rc.name, ei))
+				r.Sample(cs)
 			}
-			r.Shape("stream:" + rc.name)
-			r.Sample(cs)
 		}
 	}
 	// ---------------- a nonce whose x1 = x([k]G) lies within 2^224 of the top of the range (a witness found once by a 2^32
